@@ -74,8 +74,8 @@ pub fn alias_cell_in_cell() {
 }
 
 // ---- typed content ---------------------------------------------------------------------------
-const CELL_TYPES: [Ty; 9] = [T_INT, T_FLOAT, T_BOOL, T_STR, T_U_INT_FLOAT, T_ARR_INT, T_ARR_U_INT_FLOAT, T_ANY, T_U_INT_STR];
-const RHS_TYPES: [Ty; 8] = [T_INT, T_FLOAT, T_BOOL, T_STR, T_U_INT_FLOAT, T_ARR_INT, T_ARR_FLOAT, T_VOID];
+const CELL_TYPES: [Ty; 6] = [T_INT, T_FLOAT, T_BOOL, T_U_INT_FLOAT, T_ARR_INT, T_ANY];
+const RHS_TYPES: [Ty; 5] = [T_INT, T_FLOAT, T_BOOL, T_ARR_INT, T_ARR_FLOAT];
 const ASSIGN_OPS: [BinOperator; 12] = [
     BinOperator::Assign, BinOperator::AssignAdd, BinOperator::AssignSubtract, BinOperator::AssignMultiply,
     BinOperator::AssignDivide, BinOperator::AssignModulo, BinOperator::AssignPow, BinOperator::AssignLShift,
